@@ -1058,7 +1058,7 @@ func (t *ntail) loopBody(stmts []ast.Stmt) []*lt {
 			// c, err := createColumn(name, col, config); if err != nil { return QFrame{Err: err} }
 			if call, ok := s.Rhs[0].(*ast.CallExpr); ok && s.Tok == token.DEFINE && len(s.Lhs) == 2 && t.create != nil && isIdent(call.Fun, t.create.Name.Name) && len(call.Args) == 3 && i+1 < len(stmts) {
 				argOk := isIdent(call.Args[0], t.loopName) && (isIdent(call.Args[1], t.dataVar) || src(call.Args[1]) == t.data+"["+t.loopName+"]") && isIdent(call.Args[2], t.config)
-				if ifs, ok := stmts[i+1].(*ast.IfStmt); ok && argOk && ifs.Init == nil && ifs.Else == nil && src(ifs.Cond) == src(s.Lhs[1])+" != nil" && t.returnsErrFrame(ifs.Body.List, src(s.Lhs[1])) && t.created == "" {
+				if ifs, ok := stmts[i+1].(*ast.IfStmt); ok && argOk && ifs.Init == nil && ifs.Else == nil && src(unparen(ifs.Cond)) == src(s.Lhs[1])+" != nil" && t.returnsErrFrame(ifs.Body.List, src(s.Lhs[1])) && t.created == "" {
 					t.created = src(s.Lhs[0])
 					res = append(res, lh("LS.create"))
 					i++
